@@ -729,7 +729,7 @@ class Task:
                 raise RuntimeError("Parent must be from same WBS")
 
         if parent is not None:
-            if parent in self.all_children:
+            if parent is self or parent in self.all_children:
                 raise RuntimeError(f"Task {parent.id} is a child of task {self.id}. Can't make child "
                                    f"a parent of its parent")
 
@@ -793,7 +793,7 @@ class Task:
                 raise RuntimeError(f"Id intersection detected")
 
         for ch in value:
-            if self in ch.all_children:
+            if ch is self or self in ch.all_children:
                 raise RuntimeError(f"Task {self.id} is a child of {ch.id}. Can't make child a parent of its parent")
 
         for v in self.__children:
